@@ -27,10 +27,12 @@
 (***************************************************************************)
 EXTENDS Naturals, Sequences, FiniteSets, TLC
 
-CONSTANTS Threads, Catalogue, GuardEnabled, NoThread
+CONSTANTS Threads, Catalogue, GuardEnabled, NoThread,
+          RecursiveScrape   \* TRUE: a scrape takes the shard read lock for all its hashes up front
+                            \* (recursive read locking; negative control - parking_lot may deadlock)
 
-(* an op is [kind |-> "announce", h, key, stop (BOOLEAN), d (deadline)]   *)
-(*          [kind |-> "scrape", h]   or   [kind |-> "clean", now]           *)
+(* an op is [kind |-> "announce", h, key, stop (BOOLEAN), d (deadline)]            *)
+(*          [kind |-> "scrape", hs (sequence of hashes)]   or   [kind |-> "clean", now] *)
 
 VARIABLES progs, slock, smap, heap, nextref, pc, loc, ref, linok, replies
 vars == <<progs, slock, smap, heap, nextref, pc, loc, ref, linok, replies>>
@@ -48,19 +50,36 @@ NewObj == [peers |-> <<>>, strong |-> 1, readers |-> {}, writer |-> NoThread]
 DropRef(h2, r) ==
     IF h2[r].strong = 1 THEN FnDel(h2, r) ELSE [h2 EXCEPT ![r].strong = @ - 1]
 
+(***************************************************************************)
+(* parking_lot's RwLock, as the code relies on it:                          *)
+(*   - `writer` is the WRITER_BIT: an exclusive acquisition (write(), or the *)
+(*     upgrade of an upgradable read) first sets it - possible when no other *)
+(*     writer / upgradable reader is present - and THEN waits for the        *)
+(*     readers to leave.  While it is set no new reader is admitted, even a  *)
+(*     thread that already holds a read lock (task-fair; this is why         *)
+(*     recursive read locking can deadlock).                                 *)
+(*   - `readers` counts shared acquisitions per thread.                      *)
+(*   - an upgradable reader excludes writers and other upgradable readers,   *)
+(*     admits readers.                                                       *)
+(***************************************************************************)
+NoReaders == \A t \in Threads : slock.readers[t] = 0
+ReadShard(t) == [slock EXCEPT !.readers[t] = @ + 1]
+UnreadShard(t) == [slock EXCEPT !.readers[t] = @ - 1]
+
 Init ==
     /\ progs \in Catalogue
-    /\ slock = [readers |-> {}, upg |-> NoThread, writer |-> NoThread]
+    /\ slock = [readers |-> [t \in Threads |-> 0], upg |-> NoThread, writer |-> NoThread]
     /\ smap = <<>>
     /\ heap = <<>>
     /\ nextref = 1
-    /\ pc = [t \in Threads |-> [i |-> 1, ph |-> "start"]]
+    /\ pc = [t \in Threads |-> [i |-> 1, ph |-> "start", j |-> 1]]
     /\ loc = [t \in Threads |-> <<>>]
     /\ ref = <<>>
     /\ linok = TRUE
     /\ replies = [t \in Threads |-> <<>>]
 
-Advance(t) == pc' = [pc EXCEPT ![t] = [i |-> pc[t].i + 1, ph |-> "start"]]
+Advance(t) == pc' = [pc EXCEPT ![t] = [i |-> pc[t].i + 1, ph |-> "start", j |-> 1]]
+Phase(t, ph) == pc' = [pc EXCEPT ![t].ph = ph]
 
 RefPeers(h) == IF h \in DOMAIN ref THEN ref[h] ELSE <<>>
 RefPut(h, pm) == IF DOMAIN pm = {} THEN FnDel(ref, h) ELSE FnPut(ref, h, pm)
@@ -75,17 +94,25 @@ AnnUpRead(t) ==
        THEN \* hit: clone the Arc, release the shard lock
             /\ heap' = [heap EXCEPT ![smap[Op(t).h]].strong = @ + 1]
             /\ loc' = [loc EXCEPT ![t] = <<smap[Op(t).h]>>]
-            /\ pc' = [pc EXCEPT ![t].ph = "write"]
+            /\ Phase(t, "wwant")
             /\ UNCHANGED slock
        ELSE \* miss: keep the upgradable lock, upgrade next
             /\ slock' = [slock EXCEPT !.upg = t]
-            /\ pc' = [pc EXCEPT ![t].ph = "upgrade"]
+            /\ Phase(t, "upgrade")
             /\ UNCHANGED <<heap, loc>>
     /\ UNCHANGED <<progs, smap, nextref, ref, linok, replies>>
 
-AnnUpgrade(t) ==
+(* the upgrade swaps the upgradable bit for the writer bit at once ... *)
+AnnUpgWant(t) ==
     /\ ~Done(t) /\ Op(t).kind = "announce" /\ pc[t].ph = "upgrade"
-    /\ slock.readers = {}                  \* upgrade waits for the readers to leave
+    /\ slock' = [slock EXCEPT !.upg = NoThread, !.writer = t]
+    /\ Phase(t, "upgwait")
+    /\ UNCHANGED <<progs, smap, heap, nextref, loc, ref, linok, replies>>
+
+(* ... and then waits for the readers to leave *)
+AnnUpgrade(t) ==
+    /\ ~Done(t) /\ Op(t).kind = "announce" /\ pc[t].ph = "upgwait"
+    /\ NoReaders
     /\ LET h == Op(t).h IN
        \* entry(h).or_default(): never overwrites an existing entry
        IF h \in DOMAIN smap
@@ -96,20 +123,27 @@ AnnUpgrade(t) ==
             /\ heap' = FnPut(heap, nextref, [NewObj EXCEPT !.strong = 2])
             /\ loc' = [loc EXCEPT ![t] = <<nextref>>]
             /\ nextref' = nextref + 1
-    /\ slock' = [slock EXCEPT !.upg = NoThread]
-    /\ pc' = [pc EXCEPT ![t].ph = "write"]
+    /\ slock' = [slock EXCEPT !.writer = NoThread]
+    /\ Phase(t, "wwant")
     /\ UNCHANGED <<progs, ref, linok, replies>>
+
+AnnWriteWant(t) ==
+    /\ ~Done(t) /\ Op(t).kind = "announce" /\ pc[t].ph = "wwant"
+    /\ heap[loc[t][1]].writer = NoThread
+    /\ heap' = [heap EXCEPT ![loc[t][1]].writer = t]
+    /\ Phase(t, "write")
+    /\ UNCHANGED <<progs, slock, smap, nextref, loc, ref, linok, replies>>
 
 AnnWrite(t) ==
     /\ ~Done(t) /\ Op(t).kind = "announce" /\ pc[t].ph = "write"
     /\ LET r == loc[t][1]  o == Op(t) IN
-       /\ heap[r].writer = NoThread /\ heap[r].readers = {}
+       /\ heap[r].writer = t /\ heap[r].readers = {}
        /\ LET others  == FnDel(heap[r].peers, o.key)
               newp    == IF o.stop THEN others ELSE FnPut(others, o.key, o.d)
               reply   == Cardinality(DOMAIN others)
               rothers == FnDel(RefPeers(o.h), o.key)
               rnew    == IF o.stop THEN rothers ELSE FnPut(rothers, o.key, o.d)
-          IN /\ heap' = DropRef([heap EXCEPT ![r].peers = newp], r)
+          IN /\ heap' = DropRef([heap EXCEPT ![r].peers = newp, ![r].writer = NoThread], r)
              \* linearization point
              /\ linok' = (linok /\ reply = Cardinality(DOMAIN rothers))
              /\ ref' = RefPut(o.h, rnew)
@@ -119,31 +153,64 @@ AnnWrite(t) ==
     /\ UNCHANGED <<progs, slock, smap, nextref>>
 
 ----------------------------------------------------------------------------
-(* scrape of one torrent: nested read locks *)
+(* scrape: one unit per requested hash - shard read lock, nested peer-map  *)
+(* read lock, both released before the next hash                           *)
+
+ScrHash(t) == Op(t).hs[pc[t].j]
+NextUnit(t) ==
+    IF pc[t].j = Len(Op(t).hs) THEN Advance(t)
+    ELSE pc' = [pc EXCEPT ![t] = [i |-> @.i, ph |-> "start", j |-> @.j + 1]]
 
 ScrShard(t) ==
+    /\ ~RecursiveScrape
     /\ ~Done(t) /\ Op(t).kind = "scrape" /\ pc[t].ph = "start"
     /\ slock.writer = NoThread
-    /\ IF Op(t).h \in DOMAIN smap
-       THEN /\ slock' = [slock EXCEPT !.readers = @ \cup {t}]
-            /\ pc' = [pc EXCEPT ![t].ph = "map"]
+    /\ IF ScrHash(t) \in DOMAIN smap
+       THEN /\ slock' = ReadShard(t)
+            /\ Phase(t, "map")
             /\ UNCHANGED <<linok, replies>>
-       ELSE \* miss: zeros; linearization point
-            /\ linok' = (linok /\ Cardinality(DOMAIN RefPeers(Op(t).h)) = 0)
+       ELSE \* miss: zeros; linearization point of this unit
+            /\ linok' = (linok /\ Cardinality(DOMAIN RefPeers(ScrHash(t))) = 0)
             /\ replies' = [replies EXCEPT ![t] = Append(@, 0)]
-            /\ Advance(t)
+            /\ NextUnit(t)
             /\ UNCHANGED slock
     /\ UNCHANGED <<progs, smap, heap, nextref, loc, ref>>
 
 ScrMap(t) ==
+    /\ ~RecursiveScrape
     /\ ~Done(t) /\ Op(t).kind = "scrape" /\ pc[t].ph = "map"
-    /\ LET r == smap[Op(t).h] IN
+    /\ LET r == smap[ScrHash(t)] IN
        /\ heap[r].writer = NoThread
        /\ LET reply == Cardinality(DOMAIN heap[r].peers) IN
-          /\ linok' = (linok /\ reply = Cardinality(DOMAIN RefPeers(Op(t).h)))
+          /\ linok' = (linok /\ reply = Cardinality(DOMAIN RefPeers(ScrHash(t))))
           /\ replies' = [replies EXCEPT ![t] = Append(@, reply)]
-    /\ slock' = [slock EXCEPT !.readers = @ \ {t}]
-    /\ Advance(t)
+    /\ slock' = UnreadShard(t)
+    /\ NextUnit(t)
+    /\ UNCHANGED <<progs, smap, heap, nextref, loc, ref>>
+
+(* negative control: the shard read lock is taken once per hash before any statistics are read *)
+ScrLockAll(t) ==
+    /\ RecursiveScrape
+    /\ ~Done(t) /\ Op(t).kind = "scrape" /\ pc[t].ph = "start"
+    /\ slock.writer = NoThread
+    /\ slock' = ReadShard(t)
+    /\ pc' = [pc EXCEPT ![t] = IF @.j = Len(Op(t).hs) THEN [i |-> @.i, ph |-> "map", j |-> 1]
+                               ELSE [i |-> @.i, ph |-> "start", j |-> @.j + 1]]
+    /\ UNCHANGED <<progs, smap, heap, nextref, loc, ref, linok, replies>>
+
+ScrReadAll(t) ==
+    /\ RecursiveScrape
+    /\ ~Done(t) /\ Op(t).kind = "scrape" /\ pc[t].ph = "map"
+    /\ LET h == ScrHash(t) IN
+       /\ h \in DOMAIN smap => heap[smap[h]].writer = NoThread
+       /\ LET reply == IF h \in DOMAIN smap THEN Cardinality(DOMAIN heap[smap[h]].peers) ELSE 0 IN
+          /\ linok' = (linok /\ reply = Cardinality(DOMAIN RefPeers(h)))
+          /\ replies' = [replies EXCEPT ![t] = Append(@, reply)]
+    /\ IF pc[t].j = Len(Op(t).hs)
+       THEN /\ slock' = [slock EXCEPT !.readers[t] = 0]
+            /\ Advance(t)
+       ELSE /\ pc' = [pc EXCEPT ![t].j = @ + 1]
+            /\ UNCHANGED slock
     /\ UNCHANGED <<progs, smap, heap, nextref, loc, ref>>
 
 ----------------------------------------------------------------------------
@@ -162,27 +229,42 @@ Cl1Shard(t) ==
                   IF \E h \in DOMAIN smap : smap[h] = r
                   THEN [heap[r] EXCEPT !.strong = @ + 1] ELSE heap[r]]
     /\ loc' = [loc EXCEPT ![t] = SetToSeq({<<h, smap[h]>> : h \in DOMAIN smap})]
-    /\ pc' = [pc EXCEPT ![t].ph = "maps"]
+    /\ Phase(t, "maps")
     /\ UNCHANGED <<progs, slock, smap, nextref, ref, linok, replies>>
 
-Cl1Map(t) ==
+Cl1MapWant(t) ==
     /\ ~Done(t) /\ Op(t).kind = "clean" /\ pc[t].ph = "maps" /\ loc[t] # <<>>
+    /\ heap[loc[t][1][2]].writer = NoThread
+    /\ heap' = [heap EXCEPT ![loc[t][1][2]].writer = t]
+    /\ Phase(t, "mapw")
+    /\ UNCHANGED <<progs, slock, smap, nextref, loc, ref, linok, replies>>
+
+Cl1Map(t) ==
+    /\ ~Done(t) /\ Op(t).kind = "clean" /\ pc[t].ph = "mapw"
     /\ LET h == loc[t][1][1]  r == loc[t][1][2]  now == Op(t).now IN
-       /\ heap[r].writer = NoThread /\ heap[r].readers = {}
+       /\ heap[r].writer = t /\ heap[r].readers = {}
        /\ LET keep  == {k \in DOMAIN heap[r].peers : heap[r].peers[k] > now}
               newp  == [k \in keep |-> heap[r].peers[k]]
               \* linearization point of the pass for this torrent - if the object is
               \* still the torrent's map (an orphan has no abstract effect)
               live  == h \in DOMAIN smap /\ smap[h] = r
               rkeep == {k \in DOMAIN RefPeers(h) : RefPeers(h)[k] > now}
-          IN /\ heap' = DropRef([heap EXCEPT ![r].peers = newp], r)
+          IN /\ heap' = DropRef([heap EXCEPT ![r].peers = newp, ![r].writer = NoThread], r)
              /\ ref' = IF live THEN RefPut(h, [k \in rkeep |-> RefPeers(h)[k]]) ELSE ref
     /\ loc' = [loc EXCEPT ![t] = Tail(@)]
-    /\ UNCHANGED <<progs, slock, smap, nextref, pc, linok, replies>>
+    /\ Phase(t, "maps")
+    /\ UNCHANGED <<progs, slock, smap, nextref, linok, replies>>
+
+Cl2Want(t) ==
+    /\ ~Done(t) /\ Op(t).kind = "clean" /\ pc[t].ph = "maps" /\ loc[t] = <<>>
+    /\ slock.writer = NoThread /\ slock.upg = NoThread
+    /\ slock' = [slock EXCEPT !.writer = t]
+    /\ Phase(t, "cl2")
+    /\ UNCHANGED <<progs, smap, heap, nextref, loc, ref, linok, replies>>
 
 Cl2Shard(t) ==
-    /\ ~Done(t) /\ Op(t).kind = "clean" /\ pc[t].ph = "maps" /\ loc[t] = <<>>
-    /\ slock.writer = NoThread /\ slock.upg = NoThread /\ slock.readers = {}
+    /\ ~Done(t) /\ Op(t).kind = "clean" /\ pc[t].ph = "cl2"
+    /\ slock.writer = t /\ NoReaders
     \* retain: drop empty torrents - unless the Arc is also held elsewhere
     /\ LET gone == {h \in DOMAIN smap :
                       /\ DOMAIN heap[smap[h]].peers = {}
@@ -193,14 +275,15 @@ Cl2Shard(t) ==
                                   IN DropAll(DropRef(hp, smap[x]), S \ {x})
        IN /\ smap' = [h \in DOMAIN smap \ gone |-> smap[h]]
           /\ heap' = DropAll(heap, gone)
+    /\ slock' = [slock EXCEPT !.writer = NoThread]
     /\ replies' = [replies EXCEPT ![t] = Append(@, 0)]
     /\ Advance(t)
-    /\ UNCHANGED <<progs, slock, nextref, loc, ref, linok>>
+    /\ UNCHANGED <<progs, nextref, loc, ref, linok>>
 
 ----------------------------------------------------------------------------
-Step(t) == \/ AnnUpRead(t) \/ AnnUpgrade(t) \/ AnnWrite(t)
-           \/ ScrShard(t) \/ ScrMap(t)
-           \/ Cl1Shard(t) \/ Cl1Map(t) \/ Cl2Shard(t)
+Step(t) == \/ AnnUpRead(t) \/ AnnUpgWant(t) \/ AnnUpgrade(t) \/ AnnWriteWant(t) \/ AnnWrite(t)
+           \/ ScrShard(t) \/ ScrMap(t) \/ ScrLockAll(t) \/ ScrReadAll(t)
+           \/ Cl1Shard(t) \/ Cl1MapWant(t) \/ Cl1Map(t) \/ Cl2Want(t) \/ Cl2Shard(t)
 
 AllDone == \A t \in Threads : Done(t)
 
@@ -222,11 +305,11 @@ NoLostAnnounce == AllDone => Abs = ref
 (* nobody ever writes to a peer map that is not reachable from the shard map *)
 NoOrphanWrite ==
     \A t \in Threads :
-        (~Done(t) /\ Op(t).kind = "announce" /\ pc[t].ph = "write") =>
+        (~Done(t) /\ Op(t).kind = "announce" /\ pc[t].ph \in {"wwant", "write"}) =>
             \E h \in DOMAIN smap : smap[h] = loc[t][1]
 
 LockSanity ==
-    /\ slock.writer # NoThread => (slock.readers = {} /\ slock.upg = NoThread)
+    /\ slock.writer # NoThread => slock.upg = NoThread
     /\ \A r \in DOMAIN heap : heap[r].strong >= 1
 
 (* Deadlock freedom: TLC's deadlock check (the only terminal states are AllDone) *)
